@@ -223,3 +223,8 @@ CASES += [
         (_CF9N, "            elif cfce.temperature != temp0:\n                raise Exception(\"Inconsistent temperature! \"\n                                +\"Temperatures of all \"\n                                +\"components have to be the same\")\n\n            cfce.data = 1j*numpy.imag(cfce.data)\n",
                 "            elif cfce.temperature != temp0:\n                pass\n\n            cfce.data = 1j*numpy.imag(cfce.data)\n", 1)]},
 ]
+
+CASES += [
+    {"name": "requested temperature written as a float", "kind": "twin", "edits": [
+        (_SD9, "            if temperature is not None:\n                prms[\"T\"] = temperature\n", "            if temperature is not None:\n                prms[\"T\"] = float(temperature)\n", 1)]},
+]
